@@ -22,7 +22,8 @@ class C18(Prop):
             "export contains packets; distinct = spec digests")
     reach = ["hashseed_variants", "cwd_env_variants", "twice_in_process", "after_other_world", "cli_subprocess",
              "quic_world", "quic_zero_len_cid", "output_nonempty", "output_path_reused",
-             "sslkeylogfile_in_environment_without_s"]
+             "sslkeylogfile_in_environment_without_s", "quic_connection_ids_of_different_lengths",
+             "earlier_run_with_other_port_map", "cli_subprocess_optimised"]
 
     def plan(self, tier):
         p = super().plan(tier)
@@ -49,6 +50,14 @@ class C18(Prop):
                 c["sub"] = R.fork("othersub", c["id"]).bits(63)
                 if c.get("master_seed") is not None:
                     c["master_seed"] = c["master_seed"] + 1
+        other["cli"] = random_cli(R.fork("othercli"), [c for c in spec["conns"] if c["proto"] in ("tls", "quic")],
+                                  allow=("p", "m"))
+        if R.chance(60):
+            # the earlier run maps this world's server ports explicitly (-m a:b); this run must not inherit the pairs
+            ports = sorted(set(c["s"]["port"] for c in spec["conns"] if c["proto"] in ("tls", "quic")))
+            other["cli"]["m"] = ["%d:%d" % (p, R.range(1024, 65000)) for p in ports]
+            if R.chance(50) and not spec["cli"].get("m"):
+                spec["cli"]["m"] = [] if R.chance(50) else ["%d:%d" % (R.range(1, 1023), R.range(1024, 65000))]
         spec["other"] = other
         if R.chance(50):
             spec["keychan"] = {"mode": "file", "early_lines": R.bits(30)}
@@ -56,6 +65,11 @@ class C18(Prop):
             # the secrets travel inside the capture (decryption secrets blocks), no -s option
             spec["keychan"] = {"mode": "dsb", "perm_seed": R.bits(30)}
         spec["cli_sub"] = (idx % 8 == 0)
+        if spec["cli_sub"]:
+            # the fresh-interpreter sample maps a server port of the world explicitly
+            ports = sorted(set(c["s"]["port"] for c in spec["conns"] if c["proto"] in ("tls", "quic")))
+            if ports:
+                spec["cli"]["m"] = ["%d:%d" % (R.choice(ports), R.range(1024, 65000))]
         spec["hs2"] = [R.range(4, 1 << 31), R.range(4, 1 << 31)]
         return spec
 
@@ -79,6 +93,8 @@ class C18(Prop):
                 out.count("reach:quic_world")
                 if c.get("q", {}).get("scid_c_len") == 0 or c.get("q", {}).get("scid_s_len") == 0:
                     out.count("reach:quic_zero_len_cid")
+                if c["q"].get("ncid_len") and (c["q"]["ncid"]["s"] or c["q"]["ncid"]["c"]):
+                    out.count("reach:quic_connection_ids_of_different_lengths")
 
         def judge(name, res):
             f = failure_class(res)
@@ -134,14 +150,21 @@ class C18(Prop):
                              extra_runs=[dict(capture=ex["capture"], keylog=ex["keylog"], argv_opts=ex["argv"])])
         out.exports += 2
         out.count("reach:after_other_world")
+        if spec["other"].get("cli", {}).get("m") and spec.get("cli", {}).get("m") is not None:
+            out.count("reach:earlier_run_with_other_port_map")
         if rr[0].exc is None and rr[0].exit == 0:
             judge("in-process-after-other-world", rr[1])
         else:
             out.count("other_world_failed")
         if spec.get("cli_sub"):
             for hs in spec.get("hs2", [5])[:1]:
+                env_extra = {"TZ": "Pacific/Chatham"}
+                if spec.get("seed", 0) % 2:
+                    # python -O / PYTHONOPTIMIZE strips assert statements: nothing may depend on their side effects
+                    env_extra["PYTHONOPTIMIZE"] = "1"
+                    out.count("reach:cli_subprocess_optimised")
                 code, data, log = SUT.run_cli_subprocess(ex["capture"], ex["keylog"], ex["argv"], hashseed=hs,
-                                                         env_extra={"TZ": "Pacific/Chatham"})
+                                                         env_extra=env_extra)
                 out.exports += 1
                 out.count("reach:cli_subprocess")
                 if code != 0 or data is None:
